@@ -75,6 +75,49 @@ def decide(run, texts, leg, shards):
     log("[C11] leg %s: %d texts %s %.1fs" % (leg, len(texts), n, time.time() - t0))
 
 
+KEYWORD_UNITS = ["in", "to", "%"]        # names of shipped units that are also words of the query language
+
+
+def keyword_units_leg(run, shards):
+    """the shipped definitions use units called `in`, `to`, `%` (`usgallon 231 in^3`, `smoot 5 ft + 7 in`, `koku 10 to`); the trees
+    are built from JSON (no query text produces them), printed by the code and read back by the specification's parser"""
+    def U(n):
+        return {"k": "unit", "name": [ord(c) for c in n]}
+
+    def C(n):
+        return {"k": "const", "v": {"n": {"neg": False, "mag": [n]}, "d": [1]}}
+    trees = []
+    for kw in KEYWORD_UNITS + ["ft"]:
+        u = U(kw)
+        trees += [(kw, u), (kw, {"k": "bin", "op": "pow", "l": u, "r": C(3)}), (kw, {"k": "mul", "es": [C(231), {"k": "bin", "op": "pow", "l": u, "r": C(3)}]}),
+                  (kw, {"k": "bin", "op": "add", "l": {"k": "mul", "es": [C(5), U("ft")]}, "r": {"k": "mul", "es": [C(7), u]}}),
+                  (kw, {"k": "mul", "es": [C(10), u]}), (kw, {"k": "bin", "op": "frac", "l": U("a"), "r": u}), (kw, {"k": "mul", "es": [u, U("a")]})]
+    res = evalkit.run_eval([{"expr": t} for _, t in trees], ctx="empty", shards=1, tag="c11kw")
+    events, kept = [], []
+    for (kw, t), r in zip(trees, res):
+        if "crash" in r or r.get("bad_job"):
+            raise vlib.ToolError("keyword-units leg: the harness could not build a tree (%s)" % kw)
+        events.append({"q": r["printed"], "fromast": True, "ast": r["orig"], "printed": r["printed"], "same": r["same"]})
+        kept.append((kw, r))
+    verdicts, st = evalkit.judge(events, "Trace_Print", shards=1, tag="c11jkw")
+    run.cov["states"] += st["distinct"]
+    run.traces(len(events))
+    ok_control = 0
+    for i, (kw, r) in enumerate(kept):
+        run.count()
+        printed = evalkit.s_of(r["printed"])
+        run.nontrivial("kw:" + printed)
+        if "REJECT" in verdicts.get(i, set()):
+            run.violation({"engine": "print", "leg": "keyword-units", "unit": kw, "printed": printed, "keyword_unit": kw in KEYWORD_UNITS},
+                          "the printed text parses back to the tree it was printed from",
+                          {"printed": printed, "code_reparse_same": r["same"], "reads_back_as": r.get("back")}, "print")
+        elif kw == "ft":
+            ok_control += 1
+    if ok_control < 7:
+        raise vlib.ToolError("keyword-units leg: the control trees (unit ft) were not all accepted")
+    log("[C11] leg keyword-units: %d trees built from JSON" % len(events))
+
+
 def run(tier, seed):
     run = vlib.Run(PROP, tier, seed, "model_checking")
     thorough = tier == "thorough"
@@ -103,6 +146,8 @@ def run(tier, seed):
     tv = [rand_src(rng, rng.randint(3, 6)) for _ in range(30000 if thorough else 3000)]
     decide(run, tv, "random", shards)
     run.sample({"leg": "random", "source": tv[0]})
+
+    keyword_units_leg(run, shards)
 
     # design level: the ORIGINAL printer (before the fix) must fail RoundTrip on a right-nested subtraction
     ev = [{"q": [ord(c) for c in "(a - (b - a))"], "ast": {"k": "bin", "op": "sub", "l": {"k": "unit", "name": [97]},
